@@ -701,7 +701,7 @@ fn check_op(c: &mut Ctx, w: &[&str], before: &(HashSet<SocketAddr>, HashSet<Sock
         let spec = w[1];
         let src = parse_addr(w[2]).unwrap();
         let after = contact_sets(c);
-        if spec.starts_with('x') || spec.contains('+') {
+        if spec.starts_with('x') || spec.contains('+') || spec.contains('^') {
             // C12: an id that derives from no request of this node (random, or of a wrong length)
             let union = |x: &(HashSet<SocketAddr>, HashSet<SocketAddr>)| -> HashSet<SocketAddr> { x.0.union(&x.1).copied().collect() };
             if union(&after) != union(before) || !c.last_sent.is_empty() || !c.last_yields.is_empty() {
